@@ -101,14 +101,31 @@ struct Session {
     /// real id -> canonical k
     ids: Vec<u32>,
     /// per canonical k: received message indices, flags
-    got: Vec<(Vec<u32>, bool, bool)>,
-    pending_frames_for_unknown: Vec<(u32, Vec<u32>, bool)>,
+    got: Vec<(Vec<u32>, bool, bool, bool)>,
+    pending_frames_for_unknown: Vec<(u32, Vec<u32>, bool, bool)>,
     nr_file_msgs: u32,
     processed: std::collections::HashMap<u32, u32>,
     expect: Vec<DltMessage>,
+    /// per canonical k: is it a query; has it been ended by stop / close / window change
+    is_query: Vec<bool>,
+    ended: Vec<bool>,
 }
 
 impl Session {
+    /// everything the live streams and queries are going to get has arrived (or `max` is over)
+    fn wait_settled(&mut self, total: u32, max: Duration) {
+        let t0 = Instant::now();
+        while t0.elapsed() < max {
+            let all = self.nr_file_msgs >= total
+                && (0..self.ids.len()).all(|k| self.ended[k] || if self.is_query[k] { self.got[k].3 } else { self.processed.get(&self.ids[k]).map_or(false, |p| *p >= total) });
+            if all {
+                break;
+            }
+            self.drain(Duration::from_millis(30), Duration::from_millis(60));
+        }
+        self.drain(Duration::from_millis(60), Duration::from_millis(400));
+    }
+
     fn handle_bin(&mut self, d: &[u8]) {
         if let Ok((bt, _)) = bincode::decode_from_slice::<BinType, _>(d, BINCODE_CONFIG) {
             match bt {
@@ -139,12 +156,17 @@ impl Session {
                             None => diff = true,
                         }
                     }
+                    let end_marker = msgs.is_empty();
                     if let Some(k) = self.ids.iter().position(|x| *x == id) {
+                        if self.got[k].3 && !end_marker {
+                            diff = true; // data after the end-of-query marker
+                        }
                         self.got[k].0.extend(idxs);
                         self.got[k].2 |= diff;
+                        self.got[k].3 |= end_marker;
                     } else {
                         // data under an id that has not been announced (yet)
-                        self.pending_frames_for_unknown.push((id, idxs, diff));
+                        self.pending_frames_for_unknown.push((id, idxs, diff, end_marker));
                     }
                 }
                 _ => {}
@@ -189,18 +211,21 @@ impl Session {
         true
     }
 
-    fn announce(&mut self, id: u32) -> usize {
+    fn announce(&mut self, id: u32, is_query: bool) -> usize {
         self.ids.push(id);
-        let mut entry = (vec![], false, false);
+        self.is_query.push(is_query);
+        self.ended.push(false);
+        let mut entry = (vec![], false, false, false);
         // frames that arrived before the reply announcing the id
-        let early: Vec<(u32, Vec<u32>, bool)> = self.pending_frames_for_unknown.drain(..).collect();
-        for (pid, idxs, diff) in early {
+        let early: Vec<(u32, Vec<u32>, bool, bool)> = self.pending_frames_for_unknown.drain(..).collect();
+        for (pid, idxs, diff, end) in early {
             if pid == id {
                 entry.0.extend(idxs);
                 entry.1 = true;
                 entry.2 |= diff;
+                entry.3 |= end;
             } else {
-                self.pending_frames_for_unknown.push((pid, idxs, diff));
+                self.pending_frames_for_unknown.push((pid, idxs, diff, end));
             }
         }
         self.got.push(entry);
@@ -255,7 +280,7 @@ fn run(case: &str) -> String {
             }
         }
     };
-    let mut s = Session { child, ws, ids: vec![], got: vec![], pending_frames_for_unknown: vec![], nr_file_msgs: 0, processed: Default::default(), expect };
+    let mut s = Session { child, ws, ids: vec![], got: vec![], pending_frames_for_unknown: vec![], nr_file_msgs: 0, processed: Default::default(), expect, is_query: vec![], ended: vec![] };
     if let tungstenite::stream::MaybeTlsStream::Plain(t) = s.ws.get_mut() {
         let _ = t.set_read_timeout(Some(Duration::from_millis(20)));
     }
@@ -263,19 +288,18 @@ fn run(case: &str) -> String {
     let mut replies = vec![];
     let mut dead = false;
     let mut file_open = false;
+    let big = ms.contains('*');
+    let long = if big { Duration::from_secs(40) } else { Duration::from_secs(4) };
     for cmd in script.split(" ;; ").filter(|x| !x.trim().is_empty()) {
+        // `!cmd`: sent at once, whatever the parsing progress is
+        let (racing, cmd) = match cmd.trim().strip_prefix('!') {
+            Some(c) => (true, c),
+            None => (false, cmd.trim()),
+        };
         let f: Vec<&str> = cmd.split_whitespace().collect();
         // searches and lookups are specified on the fully processed stream: let the server catch up first
-        if file_open && matches!(f[0], "search" | "bsi" | "bst" | "cw" | "stop" | "close") {
-            let t0 = Instant::now();
-            while t0.elapsed() < Duration::from_secs(3) {
-                let all = s.nr_file_msgs >= total && s.ids.iter().all(|id| s.processed.get(id).map_or(total == 0, |p| *p >= total) || total == 0);
-                if all {
-                    break;
-                }
-                s.drain(Duration::from_millis(30), Duration::from_millis(60));
-            }
-            s.drain(Duration::from_millis(60), Duration::from_millis(400));
+        if !racing && file_open && matches!(f[0], "search" | "bsi" | "bst" | "cw" | "stop" | "close") {
+            s.wait_settled(total, long);
         }
         let text = match f[0] {
             "open" => format!(r#"open {{"files":[{}]}}"#, serde_json::json!(path.to_str().unwrap())),
@@ -324,14 +348,20 @@ fn run(case: &str) -> String {
                         }
                         "close" => {
                             file_open = false;
+                            s.ended.iter_mut().for_each(|e| *e = true);
                             "ok:close".to_string()
                         }
                         "pause" => "ok:pause".to_string(),
                         "resume" => "ok:resume".to_string(),
-                        "stop" => "ok:stop".to_string(),
+                        "stop" => {
+                            if let Some(k) = f[1].parse::<usize>().ok().filter(|k| *k >= 1 && *k <= s.ended.len()) {
+                                s.ended[k - 1] = true;
+                            }
+                            "ok:stop".to_string()
+                        }
                         "stream" | "query" => {
                             let id = t.split("\"id\":").nth(1).and_then(|x| x.split(|c: char| !c.is_ascii_digit()).next()).and_then(|x| x.parse::<u32>().ok()).unwrap_or(0);
-                            format!("ok:id{}", s.announce(id))
+                            format!("ok:id{}", s.announce(id, f[0] == "query"))
                         }
                         "cw" => {
                             let id = t.split("\"id\":").nth(1).and_then(|x| x.split(|c: char| !c.is_ascii_digit()).next()).and_then(|x| x.parse::<u32>().ok()).unwrap_or(0);
@@ -339,7 +369,12 @@ fn run(case: &str) -> String {
                             if let Some(p) = real_id(&s, f[1]).parse::<u32>().ok().and_then(|o| s.processed.get(&o).copied()) {
                                 s.processed.insert(id, p);
                             }
-                            format!("ok:id{}", s.announce(id))
+                            let mut q = false;
+                            if let Some(k) = f[1].parse::<usize>().ok().filter(|k| *k >= 1 && *k <= s.ended.len()) {
+                                s.ended[k - 1] = true;
+                                q = s.is_query[k - 1];
+                            }
+                            format!("ok:id{}", s.announce(id, q))
                         }
                         "search" => {
                             let v: serde_json::Value = t.split_once('=').and_then(|x| serde_json::from_str(x.1).ok()).unwrap_or_default();
@@ -363,18 +398,13 @@ fn run(case: &str) -> String {
                 replies.push(r);
             }
         }
-        if file_open && matches!(f[0], "stream" | "query" | "cw") {
+        if !racing && file_open && matches!(f[0], "stream" | "query" | "cw") {
             // give the stream the time to deliver its window
-            let t0 = Instant::now();
-            while t0.elapsed() < Duration::from_secs(3) {
-                let all = s.nr_file_msgs >= total && s.ids.last().map_or(true, |id| s.processed.get(id).map_or(total == 0, |p| *p >= total));
-                if all {
-                    break;
-                }
-                s.drain(Duration::from_millis(30), Duration::from_millis(60));
-            }
-            s.drain(Duration::from_millis(80), Duration::from_millis(500));
+            s.wait_settled(total, long);
         }
+    }
+    if file_open && !dead {
+        s.wait_settled(total, long);
     }
     // a little time for late frames
     if !dead {
@@ -389,7 +419,7 @@ fn run(case: &str) -> String {
         .got
         .iter()
         .enumerate()
-        .map(|(k, (idxs, early, diff))| format!("{}:{}{}{}", k + 1, idxs.iter().map(|x| x.to_string()).collect::<Vec<_>>().join("+"), if *early { ":early" } else { "" }, if *diff { ":diff" } else { "" }))
+        .map(|(k, (idxs, early, diff, end))| format!("{}:{}{}{}{}", k + 1, idxs.iter().map(|x| x.to_string()).collect::<Vec<_>>().join("+"), if *end { ":end" } else { "" }, if *early { ":early" } else { "" }, if *diff { ":diff" } else { "" }))
         .collect();
     let stray = if s.pending_frames_for_unknown.is_empty() { "" } else { " stray" };
     format!("{} | {}{} | alive={} proc={}", replies.join(" "), del.join(" "), stray, alive as u8, proc_alive as u8)
@@ -432,7 +462,107 @@ fn gen_fs(rng: &mut Rng) -> String {
         .join("+")
 }
 
+/// a large file (one lifecycle, equal times) and commands sent while it is still being parsed
+fn gen_big(rng: &mut Rng) -> String {
+    let n = 10 + rng.below(30) as usize;
+    let necu = 1 + rng.below(2);
+    let ms: Vec<String> = (0..n)
+        .map(|_| {
+            format!(
+                "{},1700000000000000,10000,{},{},{}",
+                rng.below(necu),
+                rng.pick(&["APP1", "APP2", "SYS"][..]),
+                rng.pick(&["CTX1", "CTX2"][..]),
+                hex(rng.pick(&["boot ok", "error x", "status ok", "x", "err 42", "all fine"][..]).as_bytes())
+            )
+        })
+        .collect();
+    let reps = (60_000 + rng.below(240_000)) as usize / n;
+    let total = (n * reps + 1) as u64;
+    // one last message that differs from all others: a filter on it matches only at the very end
+    let tail = format!("0,1700000000000000,10000,LAST,CTX1,{}", hex(b"needle"));
+    let mut cmds: Vec<String> = vec!["open".to_string()];
+    let mut announced: Vec<bool> = vec![]; // per id: is it a stream that may be stopped / changed
+    let ncmd = 2 + rng.below(8);
+    let mut open = true;
+    for _ in 0..ncmd {
+        let win = |rng: &mut Rng| {
+            let a = match rng.below(3) {
+                0 => rng.below(5),
+                1 => rng.below(total),
+                _ => total - rng.below(30).min(total),
+            };
+            (a, a + rng.below(50))
+        };
+        let c = match rng.below(100) {
+            0..=24 => {
+                let (a, b) = win(rng);
+                if open {
+                    announced.push(true);
+                }
+                format!("!stream {} {} {}", gen_fs(rng), a, b)
+            }
+            25..=49 => {
+                let (a, b) = win(rng);
+                if open {
+                    announced.push(false);
+                }
+                let fs = if rng.chance(3) { format!("t{}", hex(b"needle")) } else { gen_fs(rng) };
+                format!("!query {} {} {}", fs, if rng.chance(2) { 0 } else { a.min(40) }, b.min(60))
+            }
+            50..=59 => {
+                let live: Vec<usize> = announced.iter().enumerate().filter(|(_, s)| **s).map(|(i, _)| i + 1).collect();
+                if open && !live.is_empty() {
+                    let k = *rng.pick(&live[..]);
+                    let (a, b) = win(rng);
+                    announced[k - 1] = false;
+                    announced.push(true);
+                    format!("!cw {} {} {}", k, a, b)
+                } else {
+                    "junk".to_string()
+                }
+            }
+            60..=67 => {
+                let live: Vec<usize> = announced.iter().enumerate().filter(|(_, s)| **s).map(|(i, _)| i + 1).collect();
+                if open && !live.is_empty() {
+                    let k = *rng.pick(&live[..]);
+                    announced[k - 1] = false;
+                    format!("!stop {}", k)
+                } else {
+                    "!stop 0".to_string()
+                }
+            }
+            68..=79 => {
+                if open {
+                    open = false;
+                    announced.iter_mut().for_each(|s| *s = false);
+                    "!close".to_string()
+                } else {
+                    open = true;
+                    "open".to_string()
+                }
+            }
+            80..=84 => "pause ;; resume".to_string(),
+            85..=88 => "!open".to_string(),
+            89..=91 => "!close ;; open ;; !close ;; open".to_string(),
+            92..=93 => "streambad".to_string(),
+            94..=95 => "!searchnobody 1".to_string(),
+            96..=97 => "!bsbad 1".to_string(),
+            _ => "junk".to_string(),
+        };
+        if c.starts_with("!close ;;") {
+            announced.iter_mut().for_each(|s| *s = false);
+            open = true;
+        }
+        cmds.push(c);
+    }
+    format!("{};*{};{} | {}", ms.join(";"), reps, tail, cmds.join(" ;; "))
+}
+
 fn gen(rng: &mut Rng, tier: u32) -> String {
+    if rng.chance(if tier > 0 { 8 } else { 25 }) {
+        return gen_big(rng);
+    }
     let n = rng.below(if tier > 0 { 60 } else { 25 }) as usize;
     let mut recv = 1_700_000_000_000_000u64;
     let mut ts = 10_000u32;
